@@ -48,7 +48,8 @@ fn push_value_m(a: &mut vm::Asm, r: &mut Rng, narrow: bool) {
     if r.chance(1, 3) {
         // a numeric environment word, raw or narrowed by a mask (the same opcode may be read by
         // several fragments: every read is its own value)
-        a.op([0x34u8, 0x42, 0x43, 0x3a, 0x46, 0x48, 0x45, 0x44][r.below(8)]);
+        // … or an opaque one (CALLDATASIZE, RETURNDATASIZE, MSIZE: a fresh value per execution)
+        a.op([0x34u8, 0x42, 0x43, 0x3a, 0x46, 0x48, 0x45, 0x44, 0x36, 0x3d, 0x59][r.below(11)]);
         if narrow && r.chance(1, 2) {
             a.push_word(&vec![0xff; [1usize, 4, 8, 16][r.below(4)]]);
             a.op(0x16);
@@ -214,7 +215,18 @@ fn bodies(r: &mut Rng, v: &Var) -> Vec<Vec<u8>> {
                                 a.op(0x16);
                             }
                         }
-                        _ => push_value(a, r),
+                        _ => {
+                            push_value(a, r);
+                            if r.chance(1, 2) {
+                                // a use of the stored value that says how it is read (unsigned / signed
+                                // division or remainder); the quotient stays on the stack to the end
+                                a.op(0x80);
+                                a.push_u(3);
+                                a.op(0x90);
+                                a.op([0x04u8, 0x05, 0x06, 0x07][r.below(4)]);
+                                a.op(0x90);
+                            }
+                        }
                     }
                     push_key(a, r, v);
                     a.op(0x55);
